@@ -111,80 +111,65 @@ theorem errExit_inMeh (w : W) : (errExit w).inMeh = false := by
   show (hbOff (setMeh (setErr w true) false)).inMeh = false
   rw [hbOff_inMeh]; rfl
 
-theorem proj_reenter (w : W) : proj (reenter w) = proj w := rfl
+theorem proj_bumpDepth (w : W) : proj (bumpDepth w) = proj w := rfl
+
+theorem callMasterHandler_succ (n : Nat) (w : W) (msg : String) :
+    callMasterHandler (n + 1) w msg =
+      (match w.meh with
+       | .ok => (emit w (.meh false msg), false)
+       | .raise => (errExit (emit w (.meh false msg)), true)
+       | .recurse =>
+         if w.mehDepth < 2 then (errExit (bumpDepth (emit w (.meh false msg))), true)
+         else (resetDepth (emit w (.meh false msg)), false)) := rfl
 
 theorem cmh_proj : ∀ (fuel : Nat) (w : W) (msg : String), proj (callMasterHandler fuel w msg).1 = proj w := by
-  intro fuel
-  induction fuel with
-  | zero => intro w msg; rfl
-  | succ n ih =>
-    intro w msg
-    unfold callMasterHandler
+  intro fuel w msg
+  cases fuel with
+  | zero => rfl
+  | succ n =>
+    rw [callMasterHandler_succ]
     split
     · rfl
     · show proj (errExit _) = _
       rw [proj_errExit]; rfl
     · split
-      · simp only []
-        have h := ih (reenter (emit w (.meh false msg))) "mehagain"
-        split
-        · exact h
-        · show proj (errExit _) = _
-          rw [proj_errExit, h]; rfl
+      · show proj (errExit _) = _
+        rw [proj_errExit]; rfl
       · rfl
 
-/-- the flag protocol of the master-handler step, for EVERY handler behaviour (ok / raises / raises recursively):
-    entered with in_error = 0 it comes back with in_error = 0; if it left through a (nested) error,
+/-- the flag protocol of the master-handler step, for EVERY handler behaviour (ok / raises / catches an inner error and
+    raises): entered with in_error = 0 it comes back with in_error = 0; if it left through a (nested) error,
     in_mudlib_error_handler is 0, otherwise it is unchanged -/
 theorem cmh_flags : ∀ (fuel : Nat) (w : W) (msg : String), w.inError = false →
     (callMasterHandler fuel w msg).1.inError = false ∧
     ((callMasterHandler fuel w msg).2 = true → (callMasterHandler fuel w msg).1.inMeh = false) ∧
     ((callMasterHandler fuel w msg).2 = false → (callMasterHandler fuel w msg).1.inMeh = w.inMeh) := by
-  intro fuel
-  induction fuel with
-  | zero => intro w msg h; exact ⟨h, fun h' => by simp [callMasterHandler] at h', fun _ => rfl⟩
-  | succ n ih =>
-    intro w msg h
-    unfold callMasterHandler
+  intro fuel w msg h
+  cases fuel with
+  | zero => exact ⟨h, fun h' => by simp [callMasterHandler] at h', fun _ => rfl⟩
+  | succ n =>
+    rw [callMasterHandler_succ]
     split
     · exact ⟨h, fun h' => by simp at h', fun _ => rfl⟩
     · exact ⟨rfl, fun _ => errExit_inMeh _, fun h' => by simp at h'⟩
     · split
-      · simp only []
-        obtain ⟨a, b, _⟩ := ih (reenter (emit w (.meh false msg))) "mehagain" rfl
-        split
-        · rename_i hr
-          exact ⟨a, fun _ => b hr, fun h' => by simp at h'⟩
-        · exact ⟨rfl, fun _ => errExit_inMeh _, fun h' => by simp at h'⟩
+      · exact ⟨rfl, fun _ => errExit_inMeh _, fun h' => by simp at h'⟩
       · exact ⟨h, fun h' => by simp at h', fun _ => rfl⟩
 
-/-- the events of the master-handler step: the report first, then only further reports (re-entries) -/
+/-- the events of the master-handler step: exactly the report -/
 theorem cmh_trace : ∀ (fuel : Nat) (w : W) (msg : String),
     ∃ es, (callMasterHandler fuel w msg).1.trace = es ++ (Ev.meh false msg :: w.trace) ∧
       ∀ e ∈ es, quiet e = true := by
-  intro fuel
-  induction fuel with
-  | zero => intro w msg; exact ⟨[], rfl, by simp⟩
-  | succ n ih =>
-    intro w msg
-    unfold callMasterHandler
+  intro fuel w msg
+  cases fuel with
+  | zero => exact ⟨[], rfl, by simp⟩
+  | succ n =>
+    rw [callMasterHandler_succ]
     split
     · exact ⟨[], rfl, by simp⟩
     · exact ⟨[], by show (errExit _).trace = _; rw [trace_errExit]; rfl, by simp⟩
     · split
-      · simp only []
-        obtain ⟨es, he, hq⟩ := ih (reenter (emit w (.meh false msg))) "mehagain"
-        have he' : (callMasterHandler n (reenter (emit w (.meh false msg))) "mehagain").1.trace =
-            (es ++ [Ev.meh false "mehagain"]) ++ (Ev.meh false msg :: w.trace) := by
-          rw [he]; simp; rfl
-        have hq' : ∀ e ∈ es ++ [Ev.meh false "mehagain"], quiet e = true := by
-          intro e he
-          rcases List.mem_append.mp he with h | h
-          · exact hq e h
-          · simp at h; rw [h]; rfl
-        split
-        · exact ⟨_, he', hq'⟩
-        · exact ⟨_, by show (errExit _).trace = _; rw [trace_errExit]; exact he', hq'⟩
+      · exact ⟨[], by show (errExit _).trace = _; rw [trace_errExit]; rfl, by simp⟩
       · exact ⟨[], rfl, by simp⟩
 
 /-- the events of error_handler() entered with both flags clear: the report to the master comes first -/
